@@ -292,7 +292,7 @@ static void rec(op *ops, int d, int D) {
 
 #define ADD(k, x, y) alpha[nalpha++] = (op){ k, x, y }
 int main(int argc, char **argv) {
-	h_init();
+	h_init(); h_watchdog(5, 12);	/* 60 s of CPU inside one element = the call under test does not return */
 	if (argc >= 3 && !strcmp(argv[1], "replay")) {	// replay "kind(a,b) kind(a,b) ..."
 		op ops[32]; int n = 0; char *s = argv[2];
 		while (*s && n < 32) { char name[32]; unsigned long long a, b; int used = 0;
